@@ -25,7 +25,7 @@ from piquasso.api.instruction import Instruction
 from piquasso.instructions.gates import _PassiveLinearGate, Squeezing2
 from piquasso.fermionic.instructions import IsingXX
 
-from piquasso._math.validations import all_zero_or_one
+from piquasso._math.validations import all_zero_or_one, are_modes_consecutive
 from piquasso._math.transformations import (
     xxpp_to_xpxp_indices,
 )
@@ -274,6 +274,9 @@ def ising_XX(state: GaussianState, instruction: IsingXX, shots: int) -> "List[Br
     np = connector.np
 
     modes = instruction.modes
+
+    if state._config.validate and not are_modes_consecutive(modes):
+        raise InvalidParameter(f"Specified modes must be consecutive: modes={modes}")
 
     h = np.zeros((4, 4), dtype=state._config.dtype)
 
